@@ -240,11 +240,26 @@ def cost_values(model):
     return {'cost': float(model.cost.detach())}
 
 
+def mode_targets(m, scope):
+    """the modules a mode switch is applied to: the whole model, or a part of it (the normalisation / dropout
+    layers, as for frozen BatchNorm statistics or MC-dropout; one layer of the traced graph, as for a frozen
+    layer) - after which the model is in a mixed training status"""
+    if not scope:
+        return [m]
+    if scope == 'bn':
+        return [x for x in m.modules() if isinstance(x, (nn.modules.batchnorm._BatchNorm, nn.modules.dropout._DropoutNd))]
+    if scope.startswith('leaf:'):
+        ll = leaf_layers(m)
+        return [ll[int(scope[5:]) % len(ll)]] if ll else []
+    raise ValueError(scope)
+
+
 def apply_config(rep, op, replay=False):
     m = rep.model
     k = op['op']
     if k == 'set_mode':
-        m.train() if op['mode'] == 'train' else m.eval()
+        for t in mode_targets(m, op.get('scope')):
+            t.train() if op['mode'] == 'train' else t.eval()
     elif k == 'train_nas_only':
         m.train_nas_only()
     elif k == 'train_net_only':
